@@ -23,6 +23,14 @@ import (
 // points may have no precondition (except A-RECV: the pointer receiver of a
 // pointer-receiver method).
 
+// censusAssumed: obligations judged safe by reading that the abstract
+// domains cannot discharge.  One entry per obligation key, with the reason;
+// any other site - new, moved to another function, or a second instance in the
+// same function - is still reported.
+var censusAssumed = map[string]string{
+	"R-BND:(*stack).defrag:slice stackage.stack": "the truncation index comes from verifyImplode's pattern bookkeeping: at loop index i the map holds i-1 entries, so last <= 2(len-1)-1-len-1 = len-4 and last+1 < len(*r); the guard last >= 0 gives the lower bound. A map-length/loop-counter relation is outside the linear domain (this is the part of C19 that is not decided).",
+}
+
 type nilReq struct {
 	fact   Fact
 	pc     []Fact // path condition (facts over the parameters) under which the need arises; empty = always
@@ -91,6 +99,9 @@ func (c *Ctx) nilAnalysis() *nilAnalysis {
 	c.nilA = na
 	for _, fn := range c.p.Funcs {
 		na.sites[fn] = append(na.collectSites(fn), na.collectReflSites(fn)...)
+		if c.wantBnd {
+			na.sites[fn] = append(na.sites[fn], na.collectBndSites(fn)...)
+		}
 		na.nsites += len(na.sites[fn])
 	}
 	// Round-based (Jacobi) fixpoint: in each round every function's
@@ -408,6 +419,7 @@ func (na *nilAnalysis) missing(fa *FnAnalysis, site nilSite) []nilReq {
 	cal := c.p.callee(site.call)
 	for _, rq := range na.callee[cal] {
 		for _, s := range states {
+			c.eng.tt.locEpochFn = s.locEpoch
 			args := fa.argTerms(s, site.call)
 			origin := fmt.Sprintf("%s %s -> %s", relName(fa.fn), c.p.instrPos(site.instr), rq.origin)
 			// assume the callee-side path condition in a scratch copy of the state
@@ -429,12 +441,18 @@ func (na *nilAnalysis) missing(fa *FnAnalysis, site nilSite) []nilReq {
 					continue // this caller state never reaches the callee's need
 				}
 			}
+			if len(rq.pc) > 0 && rq.fact.Kind == aTR && c.stateInfeasible(fa, tmp, c.stackValues(fa.fn)) {
+				continue // the callee-side path condition cannot hold here
+			}
 			tt := c.eng.tt.substFull(rq.fact.T, args, nil, s.epoch)
 			if tt == nil {
 				add(nilReq{Fact{rq.fact.Kind, c.eng.tt.mk(Term{K: "V", V: site.instr.(ssa.Value)}), rq.fact.Val}, nil, origin})
 				continue
 			}
 			if v, known := fa.knownTerm(tmp, rq.fact.Kind, tt); known && v == rq.fact.Val {
+				continue
+			}
+			if rq.fact.Kind == aTR && tt.K == "B" && c.provesFact(fa, tmp, Fact{rq.fact.Kind, tt, rq.fact.Val}, c.stackValues(fa.fn)) {
 				continue
 			}
 			// evaluate the pure calls the needed term is built from under the hypotheses
@@ -479,6 +497,7 @@ func (na *nilAnalysis) missing(fa *FnAnalysis, site nilSite) []nilReq {
 			add(nilReq{need, append(pcOf(s), carried...), origin})
 		}
 	}
+	c.eng.tt.locEpochFn = nil
 	return out
 }
 
@@ -624,6 +643,11 @@ func (na *nilAnalysis) abduce(fn *ssa.Function, site nilSite) *Fact {
 			cands = append(cands, Fact{aVALID, pt, true})
 		}
 	}
+	if site.rule == "R-BND" {
+		if f := na.abduceLinear(fn, site); f != nil {
+			return f
+		}
+	}
 	base := na.assumptions(fn)
 	if fa0 := c.eng.analyze(fn, base); na.siteOK(fa0, site) {
 		// already discharged by a precondition added earlier in this round
@@ -653,6 +677,91 @@ func (na *nilAnalysis) abduce(fn *ssa.Function, site nilSite) *Fact {
 		}
 	}
 	return nil
+}
+
+// abduceLinear: for an index/slice site, look for simple linear facts over
+// the parameters (non-negative ints, non-empty slices, equal lengths, length
+// equal to the receiver stack's length) that discharge the site; a smallest
+// sufficient subset becomes the function's precondition (one fact per round).
+func (na *nilAnalysis) abduceLinear(fn *ssa.Function, site nilSite) *Fact {
+	c := na.c
+	tt := c.eng.tt
+	var cands []Fact
+	var lens []*Term
+	for i, p := range fn.Params {
+		pt := tt.mk(Term{K: "P", N: i, S: p.Name()})
+		switch u := p.Type().Underlying().(type) {
+		case *types.Basic:
+			if u.Info()&types.IsInteger != 0 {
+				cands = append(cands, Fact{aTR, tt.mk(Term{K: "B", S: "<=", A: c.intConst(0), B: pt}), true})
+			}
+		case *types.Slice:
+			lt := tt.mk(Term{K: "LEN", A: pt})
+			if !c.p.isNamed(p.Type(), "stack") {
+				cands = append(cands, Fact{aTR, tt.mk(Term{K: "B", S: "<=", A: c.intConst(1), B: lt}), true})
+			}
+			lens = append(lens, lt)
+		case *types.Pointer:
+			if c.p.isNamed(u.Elem(), "stack") {
+				lens = append(lens, tt.mk(Term{K: "LEN", A: tt.mk(Term{K: "L", A: pt, N: 0, S: "HDR"})}))
+			}
+		}
+	}
+	for i, p := range fn.Params {
+		if u, ok := p.Type().Underlying().(*types.Basic); ok && u.Info()&types.IsInteger != 0 {
+			pt := tt.mk(Term{K: "P", N: i, S: p.Name()})
+			for _, lt := range lens {
+				cands = append(cands, Fact{aTR, tt.mk(Term{K: "B", S: "<=", A: pt, B: lt}), true})
+			}
+		}
+	}
+	for i := 0; i < len(lens); i++ {
+		for j := i + 1; j < len(lens); j++ {
+			cands = append(cands, Fact{aTR, tt.mk(Term{K: "B", S: "==", A: lens[i], B: lens[j]}), true})
+		}
+	}
+	base := na.assumptions(fn)
+	has := func(f Fact) bool {
+		for _, b := range base {
+			if b.Kind == f.Kind && b.T == f.T && b.Val == f.Val {
+				return true
+			}
+		}
+		return false
+	}
+	var fresh []Fact
+	for _, f := range cands {
+		if !has(f) {
+			fresh = append(fresh, f)
+		}
+	}
+	if len(fresh) == 0 {
+		return nil
+	}
+	all := append(append([]Fact{}, base...), fresh...)
+	if !na.siteOK(c.eng.analyze(fn, all), site) {
+		return nil
+	}
+	// drop candidates that are not needed
+	keep := append([]Fact{}, fresh...)
+	for i := 0; i < len(keep); {
+		trial := append([]Fact{}, base...)
+		for j, f := range keep {
+			if j != i {
+				trial = append(trial, f)
+			}
+		}
+		if na.siteOK(c.eng.analyze(fn, trial), site) {
+			keep = append(keep[:i], keep[i+1:]...)
+			continue
+		}
+		i++
+	}
+	if len(keep) == 0 {
+		return &Fact{Kind: "noop"}
+	}
+	f := keep[0]
+	return &f
 }
 
 func describeTermForUser(fn *ssa.Function, t *Term) string {
@@ -685,6 +794,10 @@ func (c *Ctx) ruleRefl(rule string, scope []*ssa.Function) {
 }
 
 func (c *Ctx) ruleCensus(scope []*ssa.Function, rules map[string]bool) {
+	if rules["R-BND"] && !c.wantBnd {
+		c.wantBnd = true
+		c.nilA = nil
+	}
 	na := c.nilAnalysis()
 	rep := c.rep
 	if scope == nil {
@@ -723,11 +836,20 @@ func (c *Ctx) ruleCensus(scope []*ssa.Function, rules map[string]bool) {
 					}
 				}
 				if len(ds) > 0 {
+					key := site.rule + ":" + relName(fn) + ":" + construct
+					if why, ok := censusAssumed[key]; ok {
+						rep.add(Obligation{Rule: site.rule, Key: key, Fn: relName(fn), Pos: pos, Status: "discharged", By: "ASSUMED (judged safe by reading, beyond the abstract domain): " + why})
+						rep.assume(key + ": " + why)
+						continue
+					}
 					rep.bad(site.rule, relName(fn), construct, pos, strings.Join(ds, "; "))
 					continue
 				}
 			}
 			by := "non-nil on every path (guard fact, provenance, invariant or caller-established precondition)"
+			if site.rule == "R-BND" {
+				by = "0 <= index < len proved for every int value on every path (linear entailment from branch facts, overflow-aware; or caller-established precondition)"
+			}
 			if site.rule == "R-REFL" {
 				by = "validity / kind / accessibility of the receiver established on every path (local guard, summary or caller-established precondition)"
 			}
@@ -739,6 +861,9 @@ func (c *Ctx) ruleCensus(scope []*ssa.Function, rules map[string]bool) {
 				rule := "R-NIL"
 				if rq.fact.Kind != aNN {
 					rule = "R-REFL"
+				}
+				if rq.fact.Kind == aTR {
+					rule = "R-BND"
 				}
 				if !rules[rule] {
 					continue
@@ -766,6 +891,8 @@ func describeFactForUser(fn *ssa.Function, f Fact) string {
 		return t + " to be a valid reflect.Value"
 	case f.Kind == aCANIF:
 		return t + " to be readable (CanInterface)"
+	case f.Kind == aTR:
+		return "the bound " + f.T.key + fmt.Sprintf("=%v", f.Val)
 	}
 	return t + " " + f.Kind
 }
